@@ -55,10 +55,12 @@ pub fn run(ctx: &mut Ctx, suite: &str) {
         "c01l" => c04::run_c01l(ctx),
         "c01n" => c04::run_c01n(ctx),
         "c04e" => c04::run_c04e(ctx),
+        "c04p" => c04::run_c04p(ctx),
         "c08s" => c12::run_stall(ctx),
         "c19" => c19::run(ctx),
         "c20" => c20::run(ctx),
         "tables" => tables::gen(),
+        "headtab" => tables::gen_head(),
         _ => {
             eprintln!("unknown suite {suite}");
             std::process::exit(2);
